@@ -81,6 +81,12 @@ type Input struct {
 	// Disabled sets the deprecated SeriesRequest.PartialResponseDisabled flag
 	Disabled bool `json:"disabled,omitempty"`
 	Jitter   int  `json:"jitter"` // 0 none; n>0: receivers yield / sleep pseudo-randomly (seeded by n)
+	// FrameTimeoutMs > 0 sets the proxy's per-frame response timeout although no store times out;
+	// StallMs > 0 makes the consumer of the merged stream (the client's Send) sleep that long when
+	// it has received StallAfter frames (a slow reader).
+	FrameTimeoutMs int `json:"frame_timeout_ms,omitempty"`
+	StallMs        int `json:"stall_ms,omitempty"`
+	StallAfter     int `json:"stall_after,omitempty"`
 	// Sched, when non-empty, is a schedule for the per-store receiver goroutines: the sequence of
 	// store indices whose Recv call is let through next (see scheduler). Deterministic per input.
 	Sched  []int     `json:"sched,omitempty"`
@@ -255,6 +261,10 @@ func (s *fakeStream) Recv() (r *storepb.SeriesResponse, err error) {
 			}
 		}()
 	}
+	// like a real gRPC stream: a cancelled stream context breaks the stream
+	if e := s.ctx.Err(); e != nil {
+		return nil, e
+	}
 	if j := s.st.jitter; j != nil {
 		*j = *j*6364136223846793005 + 1442695040888963407
 		switch (*j >> 33) % 4 {
@@ -288,9 +298,15 @@ type RecServer struct {
 	storepb.Store_SeriesServer
 	Ctx    context.Context
 	Frames []*storepb.SeriesResponse
+	// a slow reader: sleep Stall when StallAfter frames have been received
+	Stall      time.Duration
+	StallAfter int
 }
 
 func (r *RecServer) Send(m *storepb.SeriesResponse) error {
+	if r.Stall > 0 && len(r.Frames) == r.StallAfter {
+		time.Sleep(r.Stall)
+	}
 	r.Frames = append(r.Frames, m)
 	return nil
 }
@@ -311,6 +327,9 @@ func BuildProxy(in Input, responseTimeout time.Duration) *store.ProxyStore {
 }
 
 func buildProxy(in Input, responseTimeout time.Duration) (*store.ProxyStore, *scheduler) {
+	if ft := time.Duration(in.FrameTimeoutMs) * time.Millisecond; ft > responseTimeout {
+		responseTimeout = ft
+	}
 	var clients []store.Client
 	var sch *scheduler
 	if len(in.Sched) > 0 {
@@ -349,7 +368,7 @@ func RunProxy(in Input, responseTimeout time.Duration) Result {
 	} else {
 		req.PartialResponseStrategy = storepb.PartialResponseStrategy_WARN
 	}
-	srv := &RecServer{Ctx: context.Background()}
+	srv := &RecServer{Ctx: context.Background(), Stall: time.Duration(in.StallMs) * time.Millisecond, StallAfter: in.StallAfter}
 	err := p.Series(req, srv)
 	res := Result{Err: err, Frames: srv.Frames}
 	if sch != nil {
